@@ -34,7 +34,7 @@ def corrupt(data, rng):
             m = rng.choice(ms)
             vals = VALUES.get(m.group(1)) or [b'x', b'1', b'\xc3\xa9', b'a b', b'a+b', b'/x']
             if rng.random() < 0.15:
-                vals = [b'\xc3\xa9', b'a b', b'a+b', b'"q"', b'', b'=']
+                vals = [b'\xc3\xa9', b'a b', b'a+b', b'"q"', b'', b'=', b'100%', b'%d', b'%(line_num)s', b'{}']
             return data[:m.start(2)] + rng.choice(vals) + data[m.end(2):]
     if r < 0.44:
         # rename or drop a whole option (e.g. the main header loses its encoding)
@@ -107,7 +107,7 @@ def corrupt(data, rng):
         if hs:
             m = rng.choice(hs)
             i = rng.randrange(m.start(), m.end() + 1)
-            return data[:i] + rng.choice([b'\xc3\xa9', b'\xff', b'\x00', b' ', b'\t', b',', b'=', b'#']) + data[i:]
+            return data[:i] + rng.choice([b'\xc3\xa9', b'\xff', b'\x00', b' ', b'\t', b',', b'=', b'#', b'%', b'%d', b'%s', b'%(x)s', b'{0}', b'\\', b'"', b"'"]) + data[i:]
     if r < 0.94:
         # drop / duplicate a whole line
         lines = data.split(b'\n')
